@@ -326,6 +326,12 @@ func cliEdit(c *cliEnv, r *rand.Rand, tw *TraceWriter, prop, label string, maxT 
 	gp.MinTips, gp.MaxTips = 4, maxT
 	gp.InnerNames = 0
 	gp.Comments = 0
+	if prop == "C06" && r.Intn(5) == 0 {
+		gp.PSingle = 0.2 // files with chains of single-child nodes: (((A:1):1):1,B:1,...)
+	}
+	if prop == "C06" && r.Intn(5) == 0 {
+		gp.PNegLen = 0.12 // negative branch lengths, as neighbour-joining writes them
+	}
 	s := genSTree(r, &gp)
 	input := s.text()
 	p := project(mustParse(input), ProjOpt{})
